@@ -66,6 +66,12 @@ pub enum Op {
     /// const replica: serialize register, medium faults, deserialize
     PersistRestore { reg: usize, human: bool, bincode: bool, faults: Vec<Fault>, style: Delivery, fail_at: Option<usize> },
     Zeroize { dst: usize },
+    /// dst = a ^ (exp mod 2^bits) through pow_bounded_exp (bits <= 64)
+    Pow { dst: usize, a: usize, exp: u64, bits: u32 },
+    /// dst = sum of products of register pairs through lincomb_vartime
+    Lincomb { dst: usize, pairs: Vec<(usize, usize)> },
+    /// dst = a^-1 if it exists (register unchanged otherwise)
+    Invert { dst: usize, a: usize, vartime: bool },
 }
 
 #[derive(Clone, Copy, Debug, Serialize, Deserialize, PartialEq, Eq)]
@@ -111,7 +117,31 @@ pub trait Rep: Clone {
     fn precision(&self) -> Option<u32> {
         None
     }
+    fn pow(&self, exp: u64, bits: u32) -> Self;
+    fn lincomb(pairs: &[(Self, Self)]) -> Self;
+    /// None: this replica offers no inversion; Some(None): not invertible
+    fn invert(&self, vartime: bool) -> Option<Option<Self>>;
 }
+
+/// Inversion of the fixed-width forms needs `Odd<Uint<N>>: PrecomputeInverter`, which exists per alias width.
+pub struct S;
+pub trait Inv<const N: usize> {
+    fn inv_dyn(x: &MontyForm<N>, vartime: bool) -> Option<MontyForm<N>>;
+    fn inv_const<M: ConstMontyParams<N>>(x: &ConstMontyForm<M, N>, vartime: bool) -> Option<ConstMontyForm<M, N>>;
+}
+macro_rules! impl_inv {
+    ($($n:expr),*) => { $(
+        impl Inv<$n> for S {
+            fn inv_dyn(x: &MontyForm<$n>, vartime: bool) -> Option<MontyForm<$n>> {
+                Option::from(if vartime { x.inv_vartime() } else { x.inv() })
+            }
+            fn inv_const<M: ConstMontyParams<$n>>(x: &ConstMontyForm<M, $n>, vartime: bool) -> Option<ConstMontyForm<M, $n>> {
+                Option::from(if vartime { x.inv_vartime() } else { x.inv() })
+            }
+        }
+    )* };
+}
+impl_inv!(1, 2, 3, 4, 5, 6, 7, 8, 16, 32);
 
 macro_rules! bin_forms {
     ($kind:expr, $a:expr, $b:expr, $form:expr, $T:ty) => {{
@@ -178,7 +208,20 @@ fn uint_of<const N: usize>(x: &[u64]) -> Uint<N> {
     Uint::from_words(w)
 }
 
-impl<M: ConstMontyParams<N>, const N: usize> Rep for CRep<M, N> {
+impl<M: ConstMontyParams<N>, const N: usize> Rep for CRep<M, N>
+where
+    S: Inv<N>,
+{
+    fn pow(&self, exp: u64, bits: u32) -> Self {
+        CRep(self.0.pow_bounded_exp(&Uint::<1>::from_u64(exp), bits))
+    }
+    fn lincomb(pairs: &[(Self, Self)]) -> Self {
+        let v: Vec<(ConstMontyForm<M, N>, ConstMontyForm<M, N>)> = pairs.iter().map(|(a, b)| (a.0, b.0)).collect();
+        CRep(ConstMontyForm::lincomb_vartime(&v))
+    }
+    fn invert(&self, vartime: bool) -> Option<Option<Self>> {
+        Some(<S as Inv<N>>::inv_const(&self.0, vartime).map(CRep))
+    }
     type Ctx = ();
     const NAME: &'static str = "const";
     fn new(_: &(), x: &[u64]) -> Self {
@@ -238,7 +281,20 @@ impl<M: ConstMontyParams<N>, const N: usize> Rep for CRep<M, N> {
     }
 }
 
-impl<const N: usize> Rep for MontyForm<N> {
+impl<const N: usize> Rep for MontyForm<N>
+where
+    S: Inv<N>,
+{
+    fn pow(&self, exp: u64, bits: u32) -> Self {
+        self.pow_bounded_exp(&Uint::<1>::from_u64(exp), bits)
+    }
+    fn lincomb(pairs: &[(Self, Self)]) -> Self {
+        let v: Vec<(&MontyForm<N>, &MontyForm<N>)> = pairs.iter().map(|(a, b)| (a, b)).collect();
+        if pairs.len() % 2 == 0 { MontyForm::lincomb_vartime(&v) } else { <MontyForm<N> as Monty>::lincomb_vartime(&v) }
+    }
+    fn invert(&self, vartime: bool) -> Option<Option<Self>> {
+        Some(<S as Inv<N>>::inv_dyn(self, vartime))
+    }
     type Ctx = MontyParams<N>;
     const NAME: &'static str = "runtime";
     fn new(c: &Self::Ctx, x: &[u64]) -> Self {
@@ -326,6 +382,16 @@ fn boxed_of(x: &[u64], limbs: usize) -> BoxedUint {
 }
 
 impl Rep for BoxedMontyForm {
+    fn pow(&self, exp: u64, bits: u32) -> Self {
+        self.pow_bounded_exp(&BoxedUint::from(exp), bits)
+    }
+    fn lincomb(pairs: &[(Self, Self)]) -> Self {
+        let v: Vec<(&BoxedMontyForm, &BoxedMontyForm)> = pairs.iter().map(|(a, b)| (a, b)).collect();
+        if pairs.len() % 2 == 0 { BoxedMontyForm::lincomb_vartime(&v) } else { <BoxedMontyForm as Monty>::lincomb_vartime(&v) }
+    }
+    fn invert(&self, vartime: bool) -> Option<Option<Self>> {
+        Some(Option::from(if vartime { self.invert_vartime() } else { self.invert() }))
+    }
     type Ctx = BCtx;
     const NAME: &'static str = "boxed";
     fn new(c: &BCtx, x: &[u64]) -> Self {
@@ -897,6 +963,88 @@ fn run<C: Rep, D: Rep + Monty, B: Rep + Monty>(
                     Guarded::Budget => {}
                 }
             }
+            Op::Pow { dst, a, exp, bits } => {
+                opname = "pow_bounded_exp".into();
+                let bits = (*bits).min(64);
+                let e = if bits == 64 { *exp } else { *exp & ((1u64 << bits) - 1) };
+                let x = model.regs[*a].clone();
+                model.regs[*dst] = x.modpow(&BigUint::from(e), &model.m);
+                each!("pow_bounded_exp", |s| s.regs[*dst] = s.regs[*a].pow(*exp, bits));
+                touched.push(*dst);
+            }
+            Op::Lincomb { dst, pairs } => {
+                opname = "lincomb_vartime".into();
+                if pairs.is_empty() {
+                    continue;
+                }
+                let mut acc = BigUint::zero();
+                for (x, y) in pairs {
+                    acc += &model.regs[*x] * &model.regs[*y];
+                }
+                model.regs[*dst] = acc % &model.m;
+                each!("lincomb_vartime", |s| {
+                    let v: Vec<_> = pairs.iter().map(|(x, y)| (s.regs[*x].clone(), s.regs[*y].clone())).collect();
+                    s.regs[*dst] = Rep::lincomb(&v);
+                });
+                touched.push(*dst);
+            }
+            Op::Invert { dst, a, vartime } => {
+                opname = if *vartime { "invert_vartime".into() } else { "invert".into() };
+                if model.m.is_one() {
+                    continue; // Z/1Z: 0 is its own inverse or has none, depending on taste — nothing asserted
+                }
+                let x = model.regs[*a].clone();
+                let want = x.modinv(&model.m);
+                let mut exists: Vec<(&str, bool)> = Vec::new();
+                macro_rules! inv_side {
+                    ($side:expr, $name:expr) => {
+                        if let Some(s) = $side.as_mut() {
+                            match guard(|| s.regs[*a].invert(*vartime)) {
+                                Guarded::Done(Some(Some(v))) => {
+                                    s.regs[*dst] = v;
+                                    exists.push(($name, true));
+                                }
+                                Guarded::Done(Some(None)) => {
+                                    exists.push(($name, false));
+                                    if want.is_some() {
+                                        // keep the replica in step with the model so that the mismatch is reported once
+                                        let vw = to_words_n(want.as_ref().unwrap(), limbs);
+                                        s.regs[*dst] = Rep::new(&s.ctx, &vw);
+                                    }
+                                }
+                                Guarded::Done(None) => {}
+                                Guarded::Panic(p) => {
+                                    out.viol("C11/unexpected-panic", format!("monty:{}:invert:{}", $name, p.location), format!("invert on the {} replica panicked at {}: {}", $name, p.location, p.message), None);
+                                }
+                                Guarded::Budget => {}
+                            }
+                        }
+                    };
+                }
+                inv_side!(c, "const");
+                inv_side!(d, "runtime");
+                inv_side!(b, "boxed");
+                for (name, e) in &exists {
+                    if *e != want.is_some() {
+                        out.viol(
+                            "C08/retrieve-mismatch",
+                            format!("{}:{}:existence:m={}", name, opname, mc),
+                            format!("{} of {:#x} mod {:#x} on the {} replica reported is_some={} but an inverse {}", opname, x, model.m, name, e, if want.is_some() { "exists" } else { "does not exist" }),
+                            None,
+                        );
+                    }
+                }
+                if let Some(w) = want {
+                    model.regs[*dst] = w;
+                    out.count("probe:inverse-exists");
+                    touched.push(*dst);
+                } else {
+                    out.count("probe:inverse-does-not-exist");
+                    // replicas that (wrongly) produced a value were written to dst; restore them from the model
+                    let vw = to_words_n(&model.regs[*dst], limbs);
+                    each!("invert-restore", |s| s.regs[*dst] = Rep::new(&s.ctx, &vw));
+                }
+            }
             Op::Zeroize { dst } => {
                 opname = "zeroize".into();
                 model.regs[*dst] = BigUint::zero();
@@ -966,6 +1114,7 @@ struct Hooks<M, const N: usize>(std::marker::PhantomData<M>);
 impl<M: ConstMontyParams<N>, const N: usize> ConstHooks<CRep<M, N>, MontyForm<N>> for Hooks<M, N>
 where
     Uint<N>: crypto_bigint::Encoding,
+    S: Inv<N>,
 {
     fn to_dyn(&self, c: &CRep<M, N>) -> Option<MontyForm<N>> {
         Some(MontyForm::from(&c.0))
@@ -1046,6 +1195,15 @@ impl Rep for NoRep {
     }
     fn copy_from(&mut self, _: &Self) {}
     fn zeroize_value(&mut self, _: &()) {}
+    fn pow(&self, _: u64, _: u32) -> Self {
+        NoRep
+    }
+    fn lincomb(_: &[(Self, Self)]) -> Self {
+        NoRep
+    }
+    fn invert(&self, _: bool) -> Option<Option<Self>> {
+        None
+    }
 }
 impl Clone for NoRep {
     fn clone(&self) -> Self {
@@ -1259,8 +1417,8 @@ impl TypedScenario for History {
         match (tier, self.faults) {
             (Tier::Quick, false) => 24_000,
             (Tier::Quick, true) => 8_000,
-            (Tier::Thorough, false) => 1_500_000,
-            (Tier::Thorough, true) => 500_000,
+            (Tier::Thorough, false) => 12_000_000,
+            (Tier::Thorough, true) => 4_000_000,
         }
     }
     fn generate(&self, seed: u64, tier: Tier, i: u64) -> Plan {
@@ -1292,7 +1450,7 @@ impl TypedScenario for History {
         let mb = big(&modulus);
         let srcs = [ParamsSrc::New, ParamsSrc::NewVartime, ParamsSrc::FromConst];
         // swarm weights over operation groups
-        let mut w = [6u32, 1, 1, 6, 6, 6, 3, 3, 3, 3, 4, 4, 1, 2, 1, 1, 1, 1, 1, 1, 1];
+        let mut w = [6u32, 1, 1, 6, 6, 6, 3, 3, 3, 3, 4, 4, 1, 2, 1, 1, 1, 1, 1, 1, 1, 2, 2, 2];
         for x in w.iter_mut() {
             if r.chance(1, 5) {
                 *x = 0;
@@ -1380,7 +1538,21 @@ impl TypedScenario for History {
                         fail_at: if r.chance(1, 8) { Some(0) } else { None },
                     }
                 }
-                _ => Op::Zeroize { dst: reg(&mut r) },
+                20 => Op::Zeroize { dst: reg(&mut r) },
+                21 => {
+                    let bits = *r.pick(&[0u32, 1, 2, 3, 4, 5, 8, 16, 17, 63, 64]);
+                    let exp = match r.below(4) {
+                        0 => r.below(8),
+                        1 => u64::MAX,
+                        _ => r.next(),
+                    };
+                    Op::Pow { dst: reg(&mut r), a: reg(&mut r), exp, bits }
+                }
+                22 => {
+                    let k = r.range(1, 5) as usize;
+                    Op::Lincomb { dst: reg(&mut r), pairs: (0..k).map(|_| (reg(&mut r), reg(&mut r))).collect() }
+                }
+                _ => Op::Invert { dst: reg(&mut r), a: reg(&mut r), vartime: r.chance(1, 2) },
             });
         }
         Plan { limbs, modulus_id, modulus, src_dyn: *r.pick(&srcs), src_boxed: *r.pick(&srcs), share_arc: r.chance(1, 2), boxed_only, ops }
